@@ -147,6 +147,7 @@ func runC06(c *Ctx, tier string) {
 	spillPeekerCopy(c, "C06-S3")
 	runNumericOrderExact(c, "C06-T1")
 	runSpillMergeAlwaysFixes(c, "C06-H1")
+	runSortComparatorBuiltOnce(c, "C06-R1")
 }
 
 func init() {
